@@ -397,7 +397,10 @@ impl<K: CacheKey + 'static> MultiLayerCacheImpl<K> {
             layer_stats,
             total_promotions: self.promotion_count.load(Ordering::Relaxed),
             overall_hit_count: global_snapshot.hit_count,
-            overall_miss_count: global_snapshot.get_count - global_snapshot.hit_count,
+            // Loaded one after the other: hit_count can be ahead of get_count
+            overall_miss_count: global_snapshot
+                .get_count
+                .saturating_sub(global_snapshot.hit_count),
             overall_hit_rate: global_snapshot.hit_rate(),
             tracked_entries: self
                 .promotion_tracker
